@@ -1,7 +1,7 @@
 (** Glue for C03 / C13 (and the parse+marshal leg of others):
     case = decoded document; observation = (status, marshalled JSON). *)
 From Coq Require Import String List Bool.
-From GP Require Import Base.Sexp Model.Gv Model.Pipeline Model.Marshal.
+From GP Require Import Base.Sexp Model.Gv Model.Pipeline Model.Marshal Model.Reparse.
 Import ListNotations.
 Local Open Scope string_scope.
 
@@ -22,4 +22,19 @@ Definition run (c : sexp) : sexp :=
   | Ok p w =>
       L [status_sexp p w; snat (count_steps (pp_steps p));
          match marshal_json p with Some j => json_sexp j | None => A "marshal-error" end]
+  end.
+
+(** C09: document -> marshalled JSON of the first parse, and of the re-parse of that JSON *)
+Definition run_reparse (c : sexp) : sexp :=
+  match parse_doc (gv_of_sexp c) with
+  | Err => L [A "err"]
+  | Ok p _ =>
+      match marshal_json p with
+      | None => L [A "marshal-error"]
+      | Some j1 =>
+          match reparse_json p with
+          | Err => L [json_sexp j1; A "reparse-error"]
+          | Ok p2 _ => L [json_sexp j1; match marshal_json p2 with Some j2 => json_sexp j2 | None => A "marshal-error" end]
+          end
+      end
   end.
